@@ -1,1 +1,2 @@
-D=/tmp/vx/cib/target/debug/deps; verus ${1:-all.rs} --extern ciborium=$D/libciborium-432bf8274d47e34e.rlib --extern ciborium_io=$D/libciborium_io-43751db6853007d8.rlib -L dependency=$D "${@:2}" 2>&1
+# D = directory holding ciborium rlibs built with Verus' toolchain (see ../README.md)
+D=${CIB_DEPS:-/tmp/vx/cib/target/debug/deps}; verus ${1:-all.rs} --extern ciborium=$(ls $D/libciborium-*.rlib) --extern ciborium_io=$(ls $D/libciborium_io-*.rlib) -L dependency=$D "${@:2}" 2>&1
